@@ -223,8 +223,6 @@ import socket
 import http.client
 from http.server import HTTPStatus, HTTPServer, BaseHTTPRequestHandler
 
-from time import sleep
-
 from . import _cim_xml
 from ._version import __version__
 from ._cim_obj import CIMInstance
@@ -1375,7 +1373,7 @@ class WBEMListener:
         self.logger.info("Starting callback thread")
         self._callback_thread = CallbackThread(
             target=self._callback_run,
-            args=(),
+            args=(self._ind_queue,),
             name='CallbackThread',
             daemon=False)
         self._callback_thread.start()
@@ -1559,8 +1557,9 @@ class WBEMListener:
                 self.logger.info(
                     "Waiting for indication queue to be empty "
                     "(currently %d items)", qsize)
-                while not self._ind_queue.empty():
-                    sleep(0.1)
+                # join() returns when every queued indication has been
+                # delivered (task_done() called), not just dequeued.
+                self._ind_queue.join()
                 self.logger.info(
                     "Indication queue is now empty")
             else:
@@ -1612,13 +1611,17 @@ class WBEMListener:
             self.logger.info(
                 "Stopped threaded HTTPS server and its listener thread")
 
-    def _callback_run(self):
+    def _callback_run(self, ind_queue):
         """
         Thread runner function for the callback thread that delivers indications
         to the registered callback functions.
 
         This function runs a loop and only returns when the queue is emtpy and
         the callback thread's stop() method had been called.
+
+        The indication queue is passed in by start() and is not taken from
+        self._ind_queue, because stop() resets that attribute while this
+        thread may not yet have started, or may still be delivering or polling.
         """
         self.logger.info("Entering callback processing loop")
 
@@ -1626,7 +1629,7 @@ class WBEMListener:
             try:
 
                 # This raises queue.Empty when the timeout expires
-                queue_item = self._ind_queue.get(
+                queue_item = ind_queue.get(
                     block=True,
                     timeout=self.queue_get_timeout)
                 indication, host, msgid = queue_item
@@ -1637,7 +1640,7 @@ class WBEMListener:
                 # Really for delivering to multiple workers rather than
                 # this simple case of a single worker. However this
                 # keeps the queue clean.
-                self._ind_queue.task_done()
+                ind_queue.task_done()
 
             # If queue empty and stop event set break out of loop
             except queue.Empty:
